@@ -44,7 +44,8 @@ Open == /\ IsEvent("open") /\ phase = "file"
         /\ UNCHANGED <<frames, filt, out, cur, pos>>
 
 \* the file as the filter in force sees it, and "everything up to record pos has been consumed" in CaptureAbs' terms
-Now == [i \in 1..Len(frames) |-> [cls |-> frames[i].cls, m |-> frames[i].mm[cur]]]
+\* with set_extract_raw_pdus(true) no record is parsed: every one of them "parses" (it comes back as its bytes)
+Now == [i \in 1..Len(frames) |-> [cls |-> IF Log[ex + 1].raw THEN "Good" ELSE frames[i].cls, m |-> frames[i].mm[cur]]]
 Consumed == IF pos = 0 THEN <<>> ELSE <<pos>>
 
 \* a delivered packet: its frame's bytes and microsecond timestamp
